@@ -172,6 +172,9 @@ class QvmEval(EvaluationContext):
 
     def eval_lvalue(self, lvalue):
         frame = self.cpu.cur_frame
+        if frame is None:
+            # the program ran off its end: no frame is left
+            raise EvalError('No stack frame')
         routine = self.find_routine_func(frame.code_start)
         if (lvalue.base_var in self.global_consts or lvalue.base_var in routine.local_consts) and \
            (lvalue.array_indices or lvalue.dotted_vars):
